@@ -96,7 +96,6 @@ impl Record<RData> {
 }
 impl RData {
 //%fn crates/proto/src/rr/record_data.rs :: impl RecordData for RData :: is_update
-//%sub1 "matches!(self, RData::Update0(_))" => "match self { RData::Update0(_) => true, _ => false }" # R-shim: matches! macro written out
 //%contract
         ensures r == (*self is Update0)
 //%end
@@ -261,7 +260,6 @@ impl Message {
 //%sub1 "Record::read(decoder)" => "record_read(decoder)" # R-sel: call of the pulled-out trait method
 //%sub1 "Option<Box<Record<TSIG>>>" => "Option<Box<Record<TSIG>>>" # (anchor check)
 //%sub1 "record .map(|data| match data { RData::TSIG(tsig) => Some(tsig), _ => None, }) .unwrap(/* match arm ensures correct type */)" => "record.vp_into_tsig().unwrap()" # R-shim: Record::map with an FnOnce closure over a generic parameter
-//%sub1 "matches!( record.record_type(), RecordType::OPT | RecordType::SIG | RecordType::TSIG )" => "(match record.record_type() { RecordType::OPT | RecordType::SIG | RecordType::TSIG => true, _ => false })" # R-shim: matches! macro written out
 //%sub1 "DecodeError::RecordNotInAdditionalSection( record.record_type(), )" => "DecodeError::RecordNotInAdditionalSection(0)" # R-sel: error payload (RecordType) dropped, as in the DecodeError stand-in
 //%sub1 "(&record).into()" => "vp_edns_from_record(&record)" # R-shim: Into::into -> the From impl it resolves to (Edns::from(&Record)), whose leading assert! is the precondition
 //%contract
